@@ -153,9 +153,43 @@ func main() {
 				// sanity: the unmodified packet is accepted
 				r := f(key, pkt)
 				run.Eval(fmt.Sprintf("%s base k%d n%d", entry, ki, n), false)
+				// the accepted message is held while every later packet of this group is processed; what the
+				// caller was given must not change under it (checked after each fault family)
+				heldOK := r.ok && r.m.Equal(m)
+				held := func(after string) {
+					if heldOK && !r.m.Equal(m) {
+						heldOK = false
+						run.Violation(entry+"|accepted-message-changed-later", fmt.Sprintf("%s k%d n%d: the message returned for the genuine packet changed while later packets (%s) were processed: now %v", entry, ki, n, after, r.m),
+							map[string]any{"fault": "held-message", "key": ki, "len": n, "entry": entry, "after": after})
+					}
+				}
 				if !r.ok || !r.m.Equal(m) {
 					run.Violation(entry+"|base-not-accepted", fmt.Sprintf("unmodified packet (len %d) not accepted as sealed: %+v", n, r), map[string]any{"fault": "none", "key": ki, "len": n})
 				}
+				// 0. history across sessions: right after the genuine packet was read under this key, the same
+				// bytes relabelled with the other key's id are presented to a session holding the other key
+				// (refused: never sealed under it), and then the same message genuinely sealed under the other
+				// key is read there (accepted: nothing remembered from the first session may interfere)
+				{
+					other := keys[1-ki]
+					q := append([]byte{}, pkt...)
+					copy(q[:8], mtp1.KeyID(other))
+					id := fmt.Sprintf("%s relabelled-after-read k%d n%d", entry, ki, n)
+					run.Eval(id, true)
+					check(entry, "relabelled-after-genuine-read", id, map[string]any{"fault": "relabel-after-read", "key": ki, "len": n, "entry": entry}, f(other, q))
+					g := mtp1.Seal(other, m, pat(mtp1.PadLen(n), func(i int) byte { return byte(0x30 + i) }), 8)
+					r2 := f(other, g)
+					run.Eval(id+" then-genuine", false)
+					if !r2.ok || !r2.m.Equal(m) {
+						run.Violation(entry+"|genuine-after-other-session-not-accepted", fmt.Sprintf("%s: the same message sealed under the other key is not accepted after the first session read its packet: %+v", id, r2), map[string]any{"fault": "relabel-after-read", "key": ki, "len": n, "entry": entry})
+					}
+					// and back: the first session still reads its own packet
+					r3 := f(key, pkt)
+					if !r3.ok || !r3.m.Equal(m) {
+						run.Violation(entry+"|genuine-reread-not-accepted", fmt.Sprintf("%s: the genuine packet is not accepted when read again: %+v", id, r3), map[string]any{"fault": "relabel-after-read", "key": ki, "len": n, "entry": entry})
+					}
+				}
+				held("relabelled")
 				// 1. bit flips
 				for bit := 0; bit < len(pkt)*8; bit++ {
 					q := append([]byte{}, pkt...)
@@ -170,6 +204,7 @@ func main() {
 					run.Eval(id, true)
 					check(entry, "bitflip-"+region, id, map[string]any{"fault": "flip", "key": ki, "len": n, "bit": bit, "entry": entry}, f(key, q))
 				}
+				held("bit flips")
 				// 2. truncations
 				for l := 0; l < len(pkt); l++ {
 					class := "truncate-block-aligned"
@@ -190,6 +225,7 @@ func main() {
 					run.Eval(id, true)
 					check(entry, class, id, map[string]any{"fault": "truncate", "key": ki, "len": n, "to": l, "entry": entry}, f(key, pkt[:l]))
 				}
+				held("truncations")
 				// 3. garbage blocks under the right key id and the original msg_key
 				for k := 1; k <= 4; k++ {
 					for gi, g := range []func(i int) byte{func(int) byte { return 0 }, func(int) byte { return 0xff }, func(i int) byte { return byte(i) }} {
@@ -199,6 +235,7 @@ func main() {
 						check(entry, "garbage-blocks", id, map[string]any{"fault": "garbage", "key": ki, "len": n, "blocks": k, "g": gi, "entry": entry}, f(key, q))
 					}
 				}
+				held("garbage blocks")
 				// 4. wrong key
 				{
 					other := keys[1-ki]
@@ -211,6 +248,7 @@ func main() {
 					run.Eval(id+" id-swapped", true)
 					check(entry, "other-key-right-id", id+" id-swapped", map[string]any{"fault": "rekey-id", "key": ki, "len": n, "entry": entry}, f(key, q2))
 				}
+				held("re-keyed packets")
 				// 5. attacker holds the key: declared lengths
 				for _, padBlocks := range []int{0, 1} {
 					plainLen := 32 + n + mtp1.PadLen(n) + 16*padBlocks
@@ -255,6 +293,7 @@ func main() {
 						}
 					}
 				}
+				held("declared lengths")
 				// 6. msg_id parity
 				for par := int64(0); par < 4; par++ {
 					mm := m
